@@ -386,7 +386,7 @@ def o_verify(case, cfgs=ACCEL):
     in_range = 1 <= r < n and 1 <= s < n
     labels = [curve_label(spec), "cls=" + case.get("cls", "?"), "expect=" + ("accept" if exp else "reject"),
               "in-range" if in_range else "out-of-range"]
-    if in_range and not exp and (case.get("cls") == "infinity" or not isinstance(spec, str)) and _sum_is_infinity(c, Q, z, r, s):
+    if in_range and not exp and (case.get("cls") in ("infinity", "infinity-rx") or not isinstance(spec, str)) and _sum_is_infinity(c, Q, z, r, s):
         labels.append("sum-is-infinity")
     for cfg in _cfg_list(spec, cfgs):
         g = get_gen(spec, cfg)
@@ -425,7 +425,7 @@ def nt_verify(case, labels):
 
 
 VERIFY_CLASSES = ["valid", "malleated", "valid-z+n", "r-out", "s-out", "both-out", "other-key", "other-z", "random",
-                  "near", "infinity", "infinity", "r+n", "s+n", "close-x", "close-x", "structured-u", "structured-u", "structured-u"]
+                  "near", "infinity", "infinity", "infinity-rx", "infinity-rx", "r+n", "s+n", "close-x", "close-x", "structured-u", "structured-u", "structured-u"]
 
 
 def _out_values(v0, n, i):
@@ -468,6 +468,24 @@ def _mk_verify(cv, d, z, k, cls, a1, a2):
     elif cls == "infinity":
         r = (-z * pow(d, -1, n)) % n
         s = [s0, a2 % (n - 1) + 1, 1, n - 1][a1 % 4]
+    elif cls == "infinity-rx":
+        # the sum verification forms is the point at infinity (z = -r*d) and r is an abscissa that is lying around
+        # while it is formed: the key's, the base point's, or the one the two cancelling addends share
+        s = [s0, a2 % (n - 1) + 1, 1, n - 1][a1 % 4]
+        which = (a1 >> 2) % 4
+        if which == 0:
+            r = Q[0] % n
+        elif which == 1:
+            r = c.G[0] % n
+        elif which == 2:
+            r = Q[1] % n
+        else:
+            t = a2 % (n - 1) + 1
+            r = c.mul_fast(t, Q)[0] % n
+            s = r * pow(t, -1, n) % n
+        zz = (-r * d) % n
+        if which == 3 and (a1 >> 4) % 2 and zz + n <= top:
+            zz += n
     elif cls == "close-x":
         # a valid triple built so that the two points verification adds, (z/s)G and (r/s)Q, have abscissas a chosen small
         # (or word-boundary) distance apart: s = k, T = the curve point nearest to x((z/s)G) + dx, R = (z/s)G + T,
